@@ -127,6 +127,17 @@ func ruleNilCheck(p *Program, r *Result, fns []*ssa.Function) {
 							src, why = x, fmt.Sprintf("result #%d of %s, which can be nil together with a nil error", x.Index, fnKey(f))
 						}
 					}
+				case *ssa.Phi:
+					// a pointer that is the nil constant on one of the paths joining here (in an inlined view:
+					// the folded helper's `return nil, nil`)
+					if _, isPtr := x.Type().Underlying().(*types.Pointer); !isPtr {
+						continue
+					}
+					for _, s := range phiSources(x) {
+						if isNilConst(s) {
+							src, why = x, "a pointer that is nil on one of the paths joining here"
+						}
+					}
 				case *ssa.Lookup:
 					mt, isMap := x.X.Type().Underlying().(*types.Map)
 					if !isMap || !nilable(mt.Elem()) {
